@@ -97,6 +97,14 @@ Proof.
 Qed.
 Print Assumptions C02_chanop_scope.
 
+(* "No password given" never authenticates: '' is what hostmask add/remove and changename pass to checkPassword when
+   the caller gave no password, and an account that has no password is never authenticated by password at all
+   (repair of C02.F44; before it both failed for an account without password / with the empty password). *)
+Theorem C02_no_password_never_authenticates :
+  forall a, check_pw a (Some []) = Ok false /\ (forall p, C16.Model.u_password (a_u a) = [] -> check_pw a p = Ok false).
+Proof. intro a. split; [apply no_password_given|intros p H; apply no_password_set; exact H]. Qed.
+Print Assumptions C02_no_password_never_authenticates.
+
 (* an account id that did not exist before a message was created by `user register`, with the empty set *)
 Theorem C02_new_account_empty :
   forall s E text a', In a' (s_users (step s (OCmd E text))) ->
@@ -123,6 +131,19 @@ Proof.
   intros ops s H. apply wf_state_Inv. apply wf_state_Inv in H. exact (proj1 (run_ops_inv_sub ops s H)).
 Qed.
 Print Assumptions C02_wf_state_invariant.
+
+(* the line separators of the REAL reader (unpreserve.Reader.readFile, regenerated table READER_LINESEPS) are exactly
+   those of the model's reader, so the theorems below are about the line structure the bot really sees; and each of
+   them is refused inside a user name by User._checkName (a reader that also ends lines at \x0b \x0c \x1c-\x1e \x85
+   U+2028 U+2029, e.g. a codecs StreamReader, breaks both halves) *)
+Theorem C02_reader_lineseps :
+  forall c, mem c gen.T02.READER_LINESEPS = C16.Model.is_nl c
+            /\ (mem c gen.T02.READER_LINESEPS = true -> forall n, name_valid n = true -> mem c n = false).
+Proof.
+  intro c. split; [exact (lineseps_model _ _ c lineseps_ok_current)|].
+  intros Hc n Hn. exact (lineseps_refused _ c n lineseps_ok_current Hc Hn).
+Qed.
+Print Assumptions C02_reader_lineseps.
 
 (* ... and from a well-formed database no history adds an owner, whatever the id / name / hostmask collisions between
    accounts (the load then stops or drops hostmasks: C02/Reader.v) and whatever hostmasks were added (a trailing
